@@ -12,6 +12,7 @@ mod httpnet;
 mod rawbytes;
 mod httpstore;
 mod store;
+mod supervise;
 mod timeunit;
 mod udpcodec;
 mod udpconc;
@@ -106,6 +107,7 @@ fn main() {
         "udpstats" => udpstats::run(&mut out, seed, cases, maxops, &replay),
         "rawbytes" => rawbytes::run(&mut out, seed, cases, &replay),
         "udpconc" => udpconc::run(&mut out, seed, cases, arg(&args, "--schedules", 300), &replay),
+        "supervise" => supervise::run(&mut out, seed, cases, &replay),
         "udpcodec" => udpcodec::run(&mut out, seed, cases, &replay),
         "wsjson" => wsjson::run(&mut out, seed, cases, &replay),
         "wsnet" => wsnet::run(&mut out, seed, cases, &replay, arg(&args, "--burst", 40)),
